@@ -289,11 +289,12 @@ CHECKS.append({
     "technique": "Coq proof (roots-of-unity arithmetic in Coquelicot C, field/ring over R) about the PSF phase ramps, Fourier and pixel point-source code "
                  "regenerated from rendering.py + interval correspondence with the phase PSF_fft/rfft2(psf) of real renderers; implementation-side "
                  "embedded-stamp / spatial-convolution oracle",
-    "text": "PARTIAL.  Seven theorems (Props/C03.v): both ramps are exp(+2 pi i ((P-1)/2) f) with pi itself (geometric-centre convention); for odd stamps "
+    "text": "PARTIAL.  Ten theorems (Props/C03.v): both ramps are exp(+2 pi i ((P-1)/2) f) with pi itself (geometric-centre convention); for odd stamps "
             "this is exactly the root-of-unity phase of an integer circular shift by (P-1)/2, for even stamps a half-pixel phase; the Fourier point source "
             "is flux times the conjugate phase of a delta at (column xc, row yc); the pixel renderer reads psf[r-yc+a][c-xc+b] (never transposed or "
-            "mirrored, centre entry on the source pixel); FFT convolution preserves totals up to sum(psf).  The convolution theorem for the half-plane "
-            "transform and bilinear resampling at fractional positions are not theorems.",
+            "mirrored, centre entry on the source pixel); FFT convolution preserves totals up to sum(psf); on Z_N the transform pair is inverse and the "
+            "inverse transform of a product of transforms is the circular convolution (1-D, every N); convolving with an impulse is a shift.  The 2-D "
+            "half-plane form of the convolution theorem and bilinear resampling at fractional positions are not theorems.",
     "note": "Trusted: Coq kernel, Coquelicot (classic), Interval, Reals axioms; translator unit Ramps; the irfft2 model is tied numerically under C01; "
             "irfft2(rfft2 a * rfft2 b) = circular convolution and map_coordinates(order=1) are modelled/assumed and exercised by the implementation "
             "oracle (embedded stamps at 2e-5 of the peak, centroids at 0.02 px, spatial convolution of the intrinsic image).",
